@@ -3,6 +3,7 @@
 // against a std::deque; storage is an exact-size heap block, load/save go through
 // simulated descriptors, realloc may fail.
 #include "worlds/common.hpp"
+#include <sys/mman.h>
 #include "kernel/simio.hpp"
 #include <fcntl.h>
 #define protected public
@@ -44,6 +45,7 @@ struct RingWorld : World {
 		p.set("cap", cap);
 		p.set("off", r.range(0, cap - 1));
 		p.set("fill", r.chance(1, 4) ? cap : r.range(0, cap));
+		p.set("vast", r.chance(1, 300) ? r.range(1, 64) : 0);      // rarely: a queue over user memory of 2 GiB and a few bytes (untouched pages cost nothing), as mpt_stream_memory may be given
 		int nops = (int) r.range(1, tier ? 150 : 60);
 		bool allocf = r.chance(1, 3), iof = r.chance(1, 3);
 		for (int i = 0; i < nops; ++i) {
@@ -60,6 +62,22 @@ struct RingWorld : World {
 	}
 
 	void exec(const Plan &p, Log &log, Stats &st) override {
+		if (p.get("vast") > 0) {
+			// counts of free elements beyond 2^31 must not be taken for error codes: what is pushed is stored and reported as stored
+			size_t vcap = ((size_t) 1 << 31) + (size_t) std::min<int64_t>(p.get("vast"), 64);
+			void *mem = mmap(0, vcap, PROT_READ | PROT_WRITE, MAP_PRIVATE | MAP_ANONYMOUS | MAP_NORESERVE, -1, 0);
+			if (mem == MAP_FAILED) { log.ev("vast: no address space"); return; }
+			struct Unmap { void *m; size_t n; ~Unmap() { munmap(m, n); } } um{mem, vcap};
+			queue v; v.base = mem; v.max = vcap; v.off = 0; v.len = 0;
+			int r0, r1, r2; { Sut s; r0 = mpt_qpush(&v, 2, "ab"); r1 = mpt_qpush(&v, 1, "c"); }
+			size_t l1 = v.len; { Sut s; r2 = mpt_qunshift(&v, 1, "z"); }
+			log.ev("vast cap=2^31+%lld: push 2 -> %d, push 1 -> %d (len %zu), unshift 1 -> %d (len %zu off %zu)", (long long) p.get("vast"), r0, r1, l1, r2, v.len, v.off);
+			if (r0 < 0 || r1 < 0 || l1 != 3 || memcmp(v.base, "abc", 3)) fail("refused-valid", "push of 1 byte to a queue of 2^31+%lld bytes holding 2: result %d, length %zu, content %.3s", (long long) p.get("vast"), r1, l1, (const char *) v.base);
+			uint8_t first = 0; { Sut s; mpt_queue_get(&v, 0, 1, &first); }
+			if (r2 < 0 || v.len != 4 || first != 'z') fail("refused-valid", "unshift of 1 byte on a queue of 2^31+%lld bytes holding 3: result %d, length %zu, first byte %02x", (long long) p.get("vast"), r2, v.len, first);
+			st.hit("probe:queue_over_2GiB"); st.state(599, 0, 1);
+			return;
+		}
 		size_t cap = (size_t) std::min<int64_t>(std::max<int64_t>(p.get("cap", 16), 1), 8192);
 		size_t off = (size_t) std::max<int64_t>(p.get("off"), 0) % cap;
 		size_t fill = std::min<size_t>((size_t) std::max<int64_t>(p.get("fill"), 0), cap);
